@@ -215,8 +215,10 @@ def t_rules_have_empty_path(t_rules):
 
 
 def generate(rng, n, tier):
+    from props import corners
+    _corner = corners.add_schema_cases()
     g = Gen(rng, pct_strings=False, max_depth=2)
-    cases = []
+    cases = list(_corner)
     while len(cases) < n:
         s_rules = [rc.gen_rule(g, max_parts=2) for _ in range(rng.choice([0, 1, 2, 3]))]
         if rng.random() < 0.06:
